@@ -365,6 +365,8 @@ def gen(rng, tier):
         Um = [[Lm[j][i] for j in range(n)] for i in range(n)]
         out.append(Case('bwd', "la.bwd %s %s" % (show_pts(Um), show_list(b)), dict(U=Um, y=b)))
         a = F(rng.randint(-3, 3)); bb = a + F(rng.randint(1, 9), rng.choice([1, 2, 3])); m = rng.randint(1, 30)
+        if rng.random() < .3:
+            a, bb = bb, a                          # a descending sequence (start > stop)
         out.append(Case('linspace', "linspace %s %s %d" % (fr(a), fr(bb), m), dict(a=a, b=bb, m=m)))
     # ---- geometric helpers (oracle only): distance, angle, triangle centre / normal
     for _ in range(40 if not thorough else 400):
